@@ -77,8 +77,9 @@ def checkOwnParagraphs (op : String) (args : List String) (text : List Int) (od 
   let qs := splitOn out od.paraSep
   if qs.length < ps.length then "fail:C11 a paragraph separator was lost"
   -- no unique decomposition into pieces / lines: a self-overlapping or blank line separator
-  -- (`bordered`), separators that overlap one another, a result that spells further separators
-  else if op == "indent" ∨ qs.length != ps.length ∨ bordered od.lineSep ∨ bordered od.paraSep ∨
+  -- (`bordered`), a self-overlapping paragraph separator next to a fragment of itself (`cleanSplit`),
+  -- separators that overlap one another, a result that spells further separators
+  else if op == "indent" ∨ qs.length != ps.length ∨ bordered od.lineSep ∨ !cleanSplit od.paraSep (ps ++ qs) ∨
       !sepsIndependent od then "ok"
   else
     let hy := op == "wrap"
